@@ -158,32 +158,6 @@ func c03Evaluate(ctx *Ctx, root string, cfg wrConfig, before, after map[string]f
 		if content && a.Data == b.Data {
 			key = "C03/logged-not-written/" + fileClass(p.rel)
 			what = "AUTOFIX actions were printed but the file was not changed on disk"
-		} else {
-			// classification only: would it be consistent if lines could be glued together?
-			ans3, err := runOracle(ctx, "c03", []string{strings.Replace(consRequest(c03MaxReloads, b.Data, logs[p.rel].Entries, a.Data), "cons", "lenient", 1)})
-			if err != nil {
-				return ev, err
-			}
-			if ans3[0] == "1" {
-				nlines := len(strings.SplitAfter(b.Data, "\n"))
-				unterminated := b.Data != "" && !strings.HasSuffix(b.Data, "\n")
-				hasS, hasBlast := false, false
-				for _, e := range p.entries {
-					hasS = hasS || e.Kind == 'S'
-					hasBlast = hasBlast || (e.Kind == 'B' && e.Line == nlines)
-				}
-				switch {
-				case unterminated && hasS:
-					key = "C03/sort-glues-unterminated-last-line"
-					what = "sorting moved the last line, which has no newline, in front of another line: two lines are glued together"
-				case unterminated && hasBlast:
-					key = "C03/insert-below-glues-unterminated-last-line"
-					what = "a line inserted below the last line, which has no newline, is glued to it"
-				default:
-					key = "C03/glued-lines/" + fileClass(p.rel) + "/" + kindsOf(p.entries)
-					what = "the printed actions account for the bytes only if two lines may be glued together"
-				}
-			}
 		}
 		ev.Problems = append(ev.Problems, c03Problem{Key: key,
 			What: fmt.Sprintf("%s: %s (%d actions)", p.rel, what, len(p.entries)),
